@@ -463,3 +463,35 @@ var rResultFresh = &Rule{
 		c.Min("slice results of the aggregating accessors", n, 6)
 	},
 }
+
+// ---------------------------------------------------------------------------
+// R-ENC-DISPATCH
+
+var rEncDispatch = &Rule{
+	Name: "R-ENC-DISPATCH",
+	Doc: "the shape of a node decides how it travels: in errbase.EncodeError (and its helpers) the cause handed to encodeWrapper is the result of UnwrapOnce(err) itself - never a branch taken out of UnwrapMulti(err). " +
+		"A multi-cause node encoded as a wrapper (because it happens to have one branch) comes back as a single-cause chain link: the visible tree has another shape after the first hop",
+	Run: func(c *core.Ctx) {
+		p := c.P
+		ee, ew, uo := p.Func("errbase", "EncodeError"), p.Func("errbase", "encodeWrapper"), p.Func("errbase", "UnwrapOnce")
+		if ee == nil || ew == nil || uo == nil || len(ee.Params) < 2 {
+			c.InternalErr("errbase.EncodeError / encodeWrapper / UnwrapOnce", "anchor functions not found")
+			return
+		}
+		reg := regionOf(ee, ew, p.Func("errbase", "encodeLeaf"))
+		n := 0
+		reg.each(func(in ssa.Instruction) {
+			call, ok := in.(*ssa.Call)
+			if !ok || sx.Callee(call) != ew || len(call.Call.Args) < 3 {
+				return
+			}
+			n++
+			v := identity(reg.resolve(identity(call.Call.Args[2])))
+			src, isCall := v.(*ssa.Call)
+			good := isCall && sx.Callee(src) == uo && len(src.Call.Args) == 1 && identity(reg.resolve(identity(src.Call.Args[0]))) == ssa.Value(ee.Params[1])
+			c.Check(good, "errbase.EncodeError: the cause handed to encodeWrapper", call.Pos(), "UnwrapOnce(err) itself",
+				"EncodeError encodes a node as a wrapper around "+describeVal(call.Call.Args[2])+", which is not the node's UnwrapOnce() cause: a multi-cause node with one branch travels as a wrapper and comes back as a single-cause chain link, so the visible cause tree changes shape after the first hop")
+		})
+		c.Min("calls of encodeWrapper from the dispatcher", n, 1)
+	},
+}
